@@ -192,6 +192,7 @@ def closure_env(ex, frame):
     cenv = pool_state(ex, env, frame)
     ex.ghost['__poolenv__'] = env
     ex.ghost['__specenv__'] = env
+    ex.ghost['__closure_frame__'] = frame
     fi_run = ex.repo.func(RUN)
     for name in ('next_inputs', 'get_next_idle_worker', 'handle_death', 'handle_no_enqueue', 'handle_unused_data',
                  'handle_enqueue', 'try_enqueue', 'handle_new_result', 'first_enqueue'):
@@ -804,6 +805,12 @@ def build_closure_contracts(ex, with_variants=True):
 
     def new_result_setup(ex_, env):
         ex_.ghost['last_answered'] = ex_.fresh('answered', Val)
+        # handle_new_result reads run()'s local `wid` (for a log line).  At its only call site that local has just been unpacked from the message and the
+        # worker looked up under it, so it is bound and equals worker.id (assumption A-wid, stated in C07.ASSUMPTIONS; not re-checked at the call site)
+        fr = ex_.ghost.get('__closure_frame__')
+        w = env.get('worker')
+        if fr is not None and isinstance(w, VAbs):
+            fr.locals['wid'] = VSym(w.key)
     inv_wo_match = [x for x in INV if x.__name__ != 'open_worker_matches_una']
     mk('handle_new_result', 'Ln', name='C07.Ln handle_new_result pops the answered input, records the genuine result, refills the worker; restores Inv',
        params={'worker': abs_worker('worker'), 'result': 'any'}, setup=with_poolenv(new_result_setup),
